@@ -437,7 +437,7 @@ class Prop(Check):
         "Repo.C17_cached_reload",
     ]
     DRIVER = "Drivers/Repo.lean"
-    QUICK_CASES = 420
+    QUICK_CASES = 320
     THOROUGH_CASES = 12000
     FAULT_BIAS = 0.25
     RULE = ("directories of <=6 model files in <=3 directories with random import graphs (exact, glob, search-path "
